@@ -29,7 +29,7 @@ from .. import present
 
 # --------------------------------------------------------------------------- pool recipes
 
-KINDS = ("lon", "lat", "x", "w", "rad", "z", "i", "iu", "s", "u", "rec", "rec2", "cov", "tabx")
+KINDS = ("lon", "lat", "x", "w", "rad", "z", "i", "iu", "s", "u", "rec", "rec2", "cov", "tabx", "rarng", "decrng")
 
 
 def values(rec, n):
@@ -50,6 +50,10 @@ def values(rec, n):
         return np.round(g.normal(0.0, 10.0 ** g.integers(-1, 3), n), 3)
     if k == "w":
         return np.round(g.uniform(0.1, 5.0, n), 3)
+    if k == "rarng":
+        return np.sort(np.round(g.uniform(0.0, 360.0, 2), 3))         # a longitude range: always 2 elements
+    if k == "decrng":
+        return np.sort(np.round(g.uniform(-90.0, 90.0, 2), 3))
     if k == "rad":
         return np.round(g.uniform(0.1, 5.0, n), 3)          # search radii in degrees (no special values: cost)
     if k == "z":
@@ -127,6 +131,8 @@ def draw_pres(r, kind):
         k = wpick(r, [("plain", 3), ("swapped", 3), ("strided", 3), ("strided_swapped", 2), ("offset", 1)])
     elif kind == "cov":
         k = wpick(r, [("plain", 3), ("swapped", 2), ("fortran", 2), ("strided", 2), ("f4", 1)])
+    elif kind in ("rarng", "decrng"):
+        k = wpick(r, [("plain", 4), ("swapped", 2), ("strided", 2), ("offset", 1), ("f4", 1), ("int", 1)])
     elif kind == "tabx":
         k = wpick(r, [("plain", 3), ("swapped", 3), ("strided", 3), ("strided_swapped", 2), ("offset", 1), ("f4", 1)])
     else:
@@ -463,6 +469,28 @@ def _(E, a, o):
 @site("radec2aitoff", "coords", ["lon", "lat"])
 def _(E, a, o):
     return E["coords"].radec2aitoff(a[0], a[1])
+
+
+@site("randsphere(ranges)", "coords", ["rarng", "decrng"])
+def _(E, a, o):
+    # the ranges are caller arrays too; two calls with the same range objects, as a caller drawing several batches does
+    rng = np.random.RandomState(12345)
+    n_ = 5 if np.ndim(a[0]) else 1
+    E["coords"].randsphere(n_, ra_range=a[0], dec_range=a[1], rng=rng)
+    return E["coords"].randsphere(n_, ra_range=a[0], dec_range=a[1], rng=rng)
+
+
+@site("randcap", "coords", ["lon", "lat"])
+def _(E, a, o):
+    ra0 = float(np.asarray(a[0]).reshape(-1)[0])
+    dec0 = float(np.asarray(a[1]).reshape(-1)[0])
+    return E["coords"].randcap(4, ra0, dec0, o.get("radius", 5.0), get_radius=o.get("values", False),
+                               dorot=o.get("stomp", False), rng=np.random.RandomState(7))
+
+
+@site("match_multi", "match", ["iu", "i"])
+def _(E, a, o):
+    return E["nu"].match_multi(a[0], a[1])
 
 
 @site("rotate", "coords", ["lon", "lat"])
